@@ -1,6 +1,10 @@
 From Coq Require Import extraction.Extraction extraction.ExtrOcamlBasic.
-From TU Require Import Base C20_Model.
-Definition run := run_C20.
-Definition check := check_C20.
-Definition agree (inp m i : val) : bool := agree_C20 inp m i && uax29_agree inp.
+From TU Require Import Base C20_Model C20_Words.
+(* the words of every line (regex matches of split_words, clusters, is_alphabetic / is_punctuation) are
+   computed by the model from the RAW line (clean + NFKC + UCD_Model + UAX29_Model); the oracle words of
+   the harness must equal them (ucd_agree), their clusters must be the model's segmentation (uax29_agree);
+   check additionally demands that all builds of a case return the same dictionary (builds_same) *)
+Definition run := run_C20u.
+Definition check := check_C20u.
+Definition agree (inp m i : val) : bool := agree_C20u inp m i.
 Extraction "model.ml" run check agree.
